@@ -533,9 +533,16 @@ def run(F, rep, tier):
         if n not in seen:
             continue
         fl = hirflow.Flow(h)
-        vs = method_value(F, W, h)
+        vs = method_value(F, W, h, inline=False)
         srcs = sorted({p[1] for p in prims_in(vs) if p[1] in NON_FINITE_SOURCES})
         if not srcs:
+            # a function that only delegates to another FeelNumber operation inherits that operation's verdict (judged on its own)
+            via = sorted({p[1] for p in prims_in(method_value(F, W, h)) if p[1] in NON_FINITE_SOURCES})
+            f = F.fns.get(n)
+            out_ty = F.ty(f, f["output"]) if f else ""
+            if via and ("FeelNumber" in out_ty or "Self" in out_ty or "Assign" in n):
+                nsink += 1
+                rep.ok(r5, short(n), "delegates to another FeelNumber operation (reaching %s), which is judged under its own key" % via)
             continue
         # does the function return a number at all? (predicates such as even()/odd()/eq() return bool/Ordering)
         f = F.fns.get(n)
@@ -569,6 +576,82 @@ def run(F, rep, tier):
             rep.violation(r5, key, "%s wraps the result of %s into a FeelNumber without a finite check: an overflowing or undefined operation yields Infinity/NaN instead of null"
                           % (key, srcs), "%s:%s" % (h["file"], h["line"]))
     rep.floor(r5, "number constructors fed by possibly non-finite primitives", nsink, 12)
+    division_rule(F, rep, seen)
+
+
+# divisions whose divisor is non-zero for a reason the rule cannot derive from a dominating test: key -> reason
+AUDITED_DIVISORS = {
+    "dmntk_feel_evaluator::bifs::core::stddev:div#0": "n = numbers.len() and one number is pushed per element of `values`, whose length is tested to be >= 2 on entry",
+    "dmntk_feel_evaluator::bifs::core::stddev:div#1": "n - 1 with n >= 2 (length test on entry)",
+}
+NONZERO_CONSTANTS = ("::one", "::two", "::nano")
+
+
+def division_rule(F, rep, seen):
+    """R02.6: x / 0 is 'undefined' and must yield null: every evaluation-reachable division of FeelNumbers has a divisor that is tested
+    against zero on the path, is a non-zero constant, or is the length of a collection tested to be non-empty."""
+    rid = rep.rule("R02.6", "every FeelNumber division reachable from evaluation has a divisor proved non-zero (tested against zero on the path, non-zero constant, length of a non-empty collection)")
+    div = re.compile(r"^<%s as core::ops::arith::(Div|DivAssign|Rem|RemAssign)(<.*>)?>::(div|div_assign|rem|rem_assign)$" % re.escape(NUM))
+
+    def is_zero_call(d):
+        return isinstance(d, tuple) and d and d[0] == "call" and (d[1] or "").endswith("FeelNumber::zero")
+
+    def same_or_abs(x, d):
+        while isinstance(x, tuple) and x and x[0] == "via":
+            x = x[2]
+        if x == d:
+            return True
+        return isinstance(x, tuple) and x and x[0] == "call" and (x[1] or "").endswith("FeelNumber::abs") and len(x[2]) == 1 and same_or_abs(x[2][0], d)
+
+    def unvia(d):
+        while isinstance(d, tuple) and d and d[0] in ("via",):
+            d = d[2]
+        if isinstance(d, tuple) and d and d[0] == "un" and d[1] == "*":
+            return unvia(d[2])
+        return d
+
+    n = 0
+    for name in sorted(seen):
+        h = F.hir.get(name)
+        if h is None or h.get("kind") not in ("fn", "method") or name.startswith(NUM) or ("<" + NUM) in name.split("::")[0]:
+            continue
+        if not h["_crate"].startswith(("dmntk_feel_evaluator", "dmntk_model_evaluator", "dmntk_feel.", "dmntk_feel_parser")) and not h["_crate"] == "dmntk_feel":
+            continue
+        fl = hirflow.Flow(h)
+        k = 0
+        for callee, args, cond, line, node in fl.ops:
+            if not div.match(callee or "") or len(args) < 2:
+                continue
+            key = "%s:div#%d" % (name, k)
+            k += 1
+            n += 1
+            d = unvia(args[1])
+            why = None
+            for cd, pat, taken in cond:
+                if isinstance(cd, tuple) and cd and cd[0] == "bin" and cd[1] in ("==", "!="):
+                    a, b = unvia(cd[2]), unvia(cd[3])
+                    for x, z in ((a, b), (b, a)):
+                        if is_zero_call(z) and same_or_abs(x, d) and taken == (cd[1] == "!="):
+                            why = "divisor compared with zero on the path"
+                if isinstance(cd, tuple) and cd and cd[0] == "call" and (cd[1] or "").endswith("FeelNumber::is_zero") and cd[2] and unvia(cd[2][0]) == d and taken is False:
+                    why = "divisor.is_zero() is false on the path"
+            if why is None and isinstance(d, tuple) and d and d[0] == "call" and (d[1] or "").endswith(NONZERO_CONSTANTS) and NUM.split("::")[-1] in (d[1] or "") and not d[2]:
+                why = "non-zero constant %s" % d[1].split("::")[-1]
+            if why is None and isinstance(d, tuple) and d and d[0] == "call" and re.search(r"Into(<[^>]*>)?>?::into$", d[1] or "") and d[2]:
+                ln = unvia(d[2][0])
+                if isinstance(ln, tuple) and ln[0] == "call" and (ln[1] or "").endswith("::len") and ln[2]:
+                    coll = unvia(ln[2][0])
+                    for cd, pat, taken in cond:
+                        if isinstance(cd, tuple) and cd and cd[0] == "call" and (cd[1] or "").endswith("::is_empty") and cd[2] and unvia(cd[2][0]) == coll and taken is False:
+                            why = "length of a collection tested to be non-empty"
+            if why:
+                rep.ok(rid, key, why)
+            elif key in AUDITED_DIVISORS:
+                rep.ok(rid, key, AUDITED_DIVISORS[key], how="audited")
+            else:
+                rep.violation(rid, key, "FeelNumber division at %s:%s: the divisor %s is not tested against zero on the path (conditions in force: %s); x / 0 must yield null, decNumber returns Infinity/NaN"
+                              % (h["file"], line, str(d)[:80], [str(c[0])[:60] for c in cond][-3:]), "%s:%s" % (h["file"], line))
+    rep.floor(rid, "FeelNumber divisions reachable from evaluation", n, 6)
 
 
 def from_string_of_integer(F, h):
@@ -601,14 +684,47 @@ def short(n):
     return n
 
 
-def method_value(F, W, h):
-    """value-set (primitive trees over self/rhs) a FeelNumber method computes, ignoring control flow"""
+def subst_self_rhs(vs, argv):
+    """instantiate a method's value-set (trees over self / rhs) with actual argument value-sets"""
+    def sub(v):
+        if v[0] == "self":
+            return set(argv[0]) if argv else {("unknown", "self")}
+        if v[0] == "rhs":
+            return set(argv[1]) if len(argv) > 1 else {("unknown", "rhs")}
+        if v[0] == "prim":
+            ins = tuple(frozenset(x for y in s for x in sub(y)) for s in v[2])
+            return {("prim", v[1], ins, v[3])}
+        if v[0] == "test":
+            return {("test", v[1], tuple(x for y in v[2] for x in sub(y)))}
+        return {v}
+    out = set()
+    for v in vs:
+        out |= sub(v)
+    return out
+
+
+def method_value(F, W, h, _stack=(), inline=True):
+    """value-set (primitive trees over self/rhs) a FeelNumber method computes, ignoring control flow.
+    Calls and overloaded operators that resolve to another FeelNumber operation (`*self = *self + rhs`) are inlined."""
     env = {}
     names = [p.get("name") for p in h["params"]]
     for i, nm in enumerate(names):
         if nm:
             env[nm] = {("self",) if i == 0 else ("rhs",)}
     acc = set()
+
+    def sibling(cal, argv):
+        hh = F.hir.get(cal)
+        if not inline:
+            return None
+        if hh is None or NUM not in cal or cal in _stack or hh is h or hh.get("kind") not in ("fn", "method"):
+            return None
+        if len(_stack) > 4:
+            return None
+        inner = method_value(F, W, hh, _stack + (cal,))
+        if not inner:
+            return None
+        return subst_self_rhs(inner, argv)
 
     def val(e):
         e = strip(e)
@@ -625,30 +741,43 @@ def method_value(F, W, h):
                 w = W.sem(cal)
                 argv = [val(a) for a in e.get("args", [])]
                 return subst_wrapper(w, argv) if w else {("unknown", cal)}
-            if "Ctor" in (e.get("dk") or "") or e.get("dk") == "SelfCtor":
-                out = set()
-                for a in e.get("args", []):
-                    out |= val(a)
-                return out
+            argv = [val(a) for a in e.get("args", [])]
+            if not ("Ctor" in (e.get("dk") or "") or e.get("dk") == "SelfCtor"):
+                sv = sibling(cal, argv)
+                if sv is not None:
+                    return sv
             out = set()
-            for a in e.get("args", []):
-                out |= val(a)
+            for a in argv:
+                out |= a
             return out
         if k == "MethodCall":
-            out = val(e["recv"])
-            for a in e.get("args", []):
-                out |= val(a)
+            argv = [val(e["recv"])] + [val(a) for a in e.get("args", [])]
+            sv = sibling(e.get("callee") or "", argv)
+            if sv is not None:
+                return sv
+            out = set()
+            for a in argv:
+                out |= a
             return out
         if k in ("Unary",):
+            if e.get("callee"):
+                sv = sibling(e["callee"], [val(e["a"])])
+                if sv is not None:
+                    return sv
             return val(e["a"])
-        if k == "Binary":
-            return val(e["a"]) | val(e["b"])
+        if k in ("Binary", "AssignOp"):
+            argv = [val(e["a"]), val(e["b"])]
+            if e.get("callee"):
+                sv = sibling(e["callee"], argv)
+                if sv is not None:
+                    return sv
+            return argv[0] | argv[1]
         return set()
 
     def visit(n, parents):
         if n.get("k") == "LetStmt" and n["p"].get("k") == "Bind" and "e" in n:
             env[n["p"]["name"]] = val(n["e"])
-        if n.get("k") == "Call":
+        if n.get("k") == "Call" or (n.get("k") in ("Binary", "Unary", "MethodCall", "AssignOp") and n.get("callee")):
             acc.update(val(n))
         return True
     from facts import walk_hir
